@@ -345,6 +345,27 @@ def shrink_case(mod, case, pred, ctx, budget=150):
     return cur
 
 
+def fails_in_fresh_process(pid, case):
+    """does the verified checker reject `case` when it is the ONLY case a new Python process evaluates?  Used by
+    property modules with STATEFUL_IMPL = True: code under test that keeps state between calls (a memoised result
+    handed out by reference, class-level attributes) can make a case fail only because of the cases evaluated before
+    it -- and every shrinking candidate inherits that state.  Returns True / False / None (could not tell)."""
+    code = ("import json,sys\nfrom harness import core\nimport importlib\n"
+            "mod = importlib.import_module('harness.props.%s')\n"
+            "ctx = core.Ctx(%r, 'quick', 0)\n"
+            "r = core.evaluate_cases(mod, [json.load(sys.stdin)], ctx)[0]\n"
+            "print('FRESH', 1 if r['check_fail'] else 0)\n" % (pid.lower(), pid))
+    try:
+        p = subprocess.run([sys.executable, "-c", code], input=json.dumps(case), capture_output=True, text=True,
+                           timeout=300, cwd=ROOT, env=dict(os.environ))
+    except Exception:  # noqa: BLE001
+        return None
+    for ln in p.stdout.split("\n"):
+        if ln.startswith("FRESH "):
+            return ln.strip() == "FRESH 1"
+    return None
+
+
 def write_replay(pid, kind, rec, extra=None):
     os.makedirs(os.path.join(ROOT, "replays"), exist_ok=True)
     body = {
@@ -532,11 +553,23 @@ def main_check(pid, tier, seed, replay=None):
         rr = evaluate_cases(mod, [small], ctx)[0]
         if not rr["check_fail"] or matches_known(pid, rr, known):
             rr = r
+        extra = None
+        if getattr(mod, "STATEFUL_IMPL", False) and not replay:
+            # the replay file must fail on its own: keep the shrunk case only if a fresh process rejects it too,
+            # else the unshrunk one, else say that the failure needs the cases evaluated before it
+            if fails_in_fresh_process(pid, rr["case"]) is False:
+                rr = r
+                if stable_key(r["case"]) != stable_key(small) and fails_in_fresh_process(pid, r["case"]) is False:
+                    extra = {"state_dependent": "the checker rejected this case only after the earlier cases of the run "
+                                                "had been evaluated in the same process (state kept by the code under test)"}
+                elif stable_key(r["case"]) == stable_key(small):
+                    extra = {"state_dependent": "the checker rejected this case only after the earlier cases of the run "
+                                                "had been evaluated in the same process (state kept by the code under test)"}
         key = stable_key(rr["case"])
         if key in reported:
             continue
         reported.add(key)
-        violations.append((write_replay(pid, "violation", rr), ""))
+        violations.append((write_replay(pid, "violation", rr, extra), ""))
 
     searched = 0
     if not violations and (diffs or not coq_ok or fatal):
